@@ -115,6 +115,11 @@ pub fn history(cfg: &Cfg, rep: &mut Report, h: u64, steps: usize, e2e: bool) {
     let cti = e.register(CtiC, ());
     let irs = e.register(IrsC, ());
     let verifier = e.register(VerifierC, (cti.clone(), irs.clone()));
+    // two verifiers that were not wired up completely: whatever the registries hold, they verify nobody
+    let half_wired: [(&str, Address); 2] = [
+        ("claim-topics-registry", e.register(VerifierC, (None::<Address>, Some(irs.clone())))),
+        ("identity-registry", e.register(VerifierC, (Some(cti.clone()), None::<Address>))),
+    ];
     let ni = 3;
     let mut issuers: Vec<Address> = (0..ni).map(|_| e.register(IssuerC, ())).collect();
     // issuer #3 is scripted (not built from the helpers): confirms, fails, or *returns* false
@@ -542,6 +547,16 @@ pub fn history(cfg: &Cfg, rep: &mut Report, h: u64, steps: usize, e2e: bool) {
                 rep.check("claim", r.is_ok() == want, "C15/claim/is_claim_valid", || {
                     format!("issuer I{is} on claim (ID{idx}, topic {tp}, key {}, signed with nonce {}, valid_until {}): expected valid={want} ({why}; now ts {ts}, current nonce {:?}), issuer answered {r:?}", rec.key, rec.nonce, rec.valid_until, nonce.get(&(*is, *idx, *tp)))
                 });
+            }
+        }
+        if step % 8 == 0 {
+            for (missing, v) in half_wired.iter() {
+                for a in 0..accounts.len() {
+                    let r: Result<(), Fail> = invoke(e, v, "verify_identity", args!(e, accounts[a]));
+                    rep.evaluations += 1;
+                    rep.case(format!("verify/verifier-without-{missing}/{}", tag(&r)));
+                    rep.check("verify", r.is_err(), &format!("C15/verify/verify_identity/passed-on-a-verifier-without-{missing}"), || format!("verify_identity(account {a}) passed on a verifier whose {missing} was never set"));
+                }
             }
         }
         let mut verdicts: Vec<bool> = vec![];
